@@ -51,6 +51,7 @@ class Func:
     is_const: bool = False
     error: str = None
     param_tys: list = field(default_factory=list)
+    debug: dict = field(default_factory=dict)     # debug name -> place text (used to recover closure captures)
 
 
 def split_top(s, sep=","):
@@ -457,11 +458,17 @@ def parse_func(header, body):
         nparams = 0
     blocks = {}
     local_tys = {}
+    debug = {}
     cur = None
     pending = ""
     for raw in body:
         s = raw.strip()
         if not s or s.startswith("//"):
+            continue
+        if cur is None and s.startswith("debug "):
+            md = re.match(r"debug (\S+) => (.*);$", s)
+            if md:
+                debug[md.group(1)] = md.group(2)
             continue
         m = re.match(r"let (mut )?_(\d+): (.*);$", s)
         if m and cur is None:
@@ -488,7 +495,7 @@ def parse_func(header, body):
             cur.term = item
         else:
             cur.stmts.append(item)
-    return Func(name, header, nparams, ret, local_tys, blocks, is_const, None, param_tys)
+    return Func(name, header, nparams, ret, local_tys, blocks, is_const, None, param_tys, debug)
 
 
 def _param_open(h):
